@@ -14,4 +14,7 @@ OnlineIffAnswered == (s.done /\ s.op \in {"refresh", "toggle"}) => (s.online = (
 OnlineOnlyByRefresh == (s.op \in {"caps", "apply", "clean"}) => ~s.online
 Ends == Len(hist) <= 5 * Retries
 GEmit == IF s.done THEN PrintT(<<"SCN", ToJson([op |-> s.op, pr |-> s.pr, answers |-> hist])>>) ELSE TRUE
+(* liveness: the command / operation terminates when its steps keep being taken *)
+FairOSpec == OSpec /\ WF_<<s, hist>>(ONext)
+Terminates == <>(s.done)
 =======================================================================
